@@ -9,13 +9,14 @@ EXPLANATION = ("Decides, on the MIR of gix-credentials: (1) every write of a key
                "true edge cannot reach the Ok return; (3) the set of keys written is a subset of the keys the decoder "
                "dispatches on, each key is paired with the field of the same name in the writer, and in the decoder every "
                "store into field K is cut off from entry once the true edges of the comparisons with \"K\" are removed. "
-               "The reader cuts each line at the FIRST `=` (bounded split / split_once / find), never with an unbounded split. It does not run the encoder; round-trip equality over all values is not decided.")
+               "The reader cuts each line at the FIRST `=` (bounded split / split_once / find), never with an unbounded split. It does not run the encoder; round-trip equality over all values is not decided. write_key writes key, `=`, value and newline unconditionally (a present field is sent whatever its value).")
 
 W = r"gix_credentials::protocol::context::serde::write::<impl gix_credentials::protocol::Context>::write_to$"
 KEYS = [b"url", b"path", b"protocol", b"host", b"username", b"password"]
 
 
 def run(db, chk):
+    present_fields_are_written_rule(db, chk)
     decode_split_rule(db, chk)
     w = db.one(W)
     fl = Flow(w)
@@ -141,3 +142,29 @@ def decode_split_rule(db, chk):
     chk.floor("bounded key/value split in the decoder", bounded, 1)
     if not unbounded:
         chk.ob("value-is-everything-after-first-equals", "Context::from_bytes (%d bounded split(s), no unbounded one)" % bounded, True)
+
+
+def present_fields_are_written_rule(db, chk):
+    """`decodes back to the same fields`: a field that is Some(..) is written, whatever its value - Some("") (the empty password the cascade sets
+    for ssh URLs so that helpers do not prompt) must not silently become None.  In write_to's write_key helper the four writes (key, `=`, value,
+    newline) are reached unconditionally: no switch that decides whether they happen derives from the value (only `?` error propagation of
+    the writes themselves stands between them)."""
+    from gx.flow import control_switches
+    fs = [f for f in db.by_crate["gix_credentials"] if f.kind != "promoted" and f.name.endswith("::write_to::write_key")]
+    chk.floor("Context::write_to::write_key", len(fs), 1)
+    for f in fs:
+        fl = Flow(f)
+        ws = f.calls_to(r"io::Write::write_all$|Write>?::write_all$|::write_fmt$")
+        chk.floor("write_key: writes", len(ws), 3)
+        bad = []
+        for c in ws:
+            for b in control_switches(f, c.block):
+                t = f.term(b)
+                meta = t[6] if len(t) > 6 and isinstance(t[6], list) else []
+                if "d:QuestionMark" in meta:
+                    continue
+                if any(r[0] == "arg" and r[1] in (2, 3) for r in fl.roots(t[1], stop_named=False)):
+                    bad.append(t[5] if len(t) > 5 else c.line)
+        chk.ob("present-field-is-always-written", "write_key (%d writes)" % len(ws), not bad,
+               "whether a field is written depends on its key or value (line %s): a field holding Some(\"\") is left out and decodes back as None - helpers no longer receive `password=`" % sorted(set(bad)),
+               "%s:%d" % (f.file, f.line), key="present-field-written|write_key")
